@@ -203,6 +203,9 @@ def config_set(ctx: click.Context, key: str, value: str) -> None:
     """
     cfg = ctx.obj["config"]
     converted_value = _convert_value_type(value)
+    if isinstance(cfg.get(key), str) and not isinstance(converted_value, str):
+        # A text setting keeps the text as typed ("007", "1e3"), not its numeric reading
+        converted_value = value
     cfg[key] = converted_value
 
     try:
